@@ -61,7 +61,8 @@ def main():
                 return rc
             return generic_replay(mod, ctx, a.replay)
         if a.selftest:
-            rc = mod.selftest(ctx)
+            from harness import selftest
+            rc = selftest.run(ctx)
             ctx.abort()
             return rc
         mod.run(ctx)
